@@ -42,7 +42,7 @@ DLine(l) ==
 (*    for an error and `line` is the first offending line; "grey": the     *)
 (*    statement does not settle it (DESIGN.md section 5).                  *)
 
-A0 == [verdict |-> "accept", line |-> 0, why |-> "", unit |-> 0, uchar |-> "", mode |-> "none",
+A0 == [verdict |-> "accept", line |-> 0, why |-> "", unit |-> 0, uchar |-> "", bchar |-> "", mode |-> "none",
        prev |-> 0, items |-> <<>>, n |-> 0]
 
 AStep(a, raw) ==
@@ -62,12 +62,15 @@ AStep(a, raw) ==
     LET k     == Len(dl.ind)
         unit  == IF a.unit = 0 /\ k > 0 THEN k ELSE a.unit
         uchar == IF a.unit = 0 /\ k > 0 THEN dl.ind[1] ELSE a.uchar
-    IN IF k > 0 /\ dl.ind[1] # uchar THEN bad("grey", "other-indent-char")
+        \* the indentation character of the lines since the last item at the left margin
+        bchar == IF k = 0 THEN "" ELSE IF a.bchar = "" THEN dl.ind[1] ELSE a.bchar
+    IN IF k > 0 /\ dl.ind[1] # bchar THEN bad("reject", "mixed-across-lines")   \* tabs and spaces below one item
+       ELSE IF k > 0 /\ dl.ind[1] # uchar THEN bad("grey", "other-indent-char")  \* another character than the unit's, in another block
        ELSE IF k > 0 /\ k % unit # 0 THEN bad("reject", "offunit")
        ELSE LET d == (IF k = 0 THEN 1 ELSE (k \div unit) + 1) + (IF a.mode = "heading" THEN 1 ELSE 0) IN
             IF a.mode = "none" /\ d > 1 THEN bad("reject", "item-before-root")
             ELSE IF a.mode # "none" /\ d > a.prev + 1 THEN bad("reject", "jump")
-            ELSE [a1 EXCEPT !.unit = unit, !.uchar = uchar,
+            ELSE [a1 EXCEPT !.unit = unit, !.uchar = uchar, !.bchar = bchar,
                             !.mode = IF a.mode = "none" THEN "bullet" ELSE a.mode,
                             !.prev = d, !.items = Append(@, [d |-> d, n |-> dl.name])]
 
